@@ -7,6 +7,43 @@ TRUST = ("Trusted: go/types+go/ssa (x/tools v0.29.0) and ruxvc's SSA semantics; 
          "(unsat answers); assumed extern contracts listed per run in evidence.coverage.trusted_base; int is mathematical. ")
 
 CLAIMS = {
+ "C01": dict(
+   text="Contract proof of the index and lookup logic, unbounded in tables and paths: match is proved (two loop invariants, existential first-match clauses) to return the static entry when one exists, else the FIRST route of the regular list for METHOD+first-segment that passes the prefix filter and whose regexp accepts, else the first accepting route of the irregular list, and nil only if none qualifies; appendRoute is proved to file a route in exactly its tier, at the end of its list, keeping every earlier route in place (so list order is registration order), with the static table keyed by METHOD+path. The inverted-test defect that dropped earlier irregular routes is fixed (canary).",
+   note=TRUST + "regexp is an uninterpreted model (reAcc/reSub/nsub): the translation pattern -> regexp in parseParamRoute/quotePointChar/checkAndParseOptional is string assembly handed to regexp.MustCompile and is NOT covered deductively (bounded stand-in bounded/patsem, labelled bounded). R-reg: tables are frozen before the first request.",
+   design="6/C01"),
+ "C02": dict(
+   text="Contract proof: matchRegex is proved (loop invariant, exact handling of repeated names: last occurrence wins) to return parameters that are positionally the submatches of the route's regexp - name i <-> group i+1 - for exactly the route's variable names, given the group-count invariant routeWF that parseParamRoute establishes by a registration-time check (fix for the capturing-group defect); static hits carry no parameters; a cache hit returns the parameter map stored with the entry, which cacheDynamicRoute proves to be the map of the original match.",
+   note=TRUST + "Which substring each group captures is regexp semantics (assumed model). Value-level clauses (substitution reproduces the path) are in the bounded stand-in.",
+   design="6/C02"),
+ "C06": dict(
+   text="Contract proof of the resolution order: QuickMatch is proved against the table predicate tm (cache-independent, via the invariant that cache entries only exist for matching (method,path) pairs) to resolve direct match, then HEAD->GET, then the METHOD/* fallback route when enabled, then method-not-allowed with the allowed list being exactly the other supported methods whose tables match (every map iteration order covered by a bijection model of range), else not found; with InterceptAll the lookup path is the normalised intercept path (defect fixed). handleHTTPRequest is proved to install the NotAllowed/NotFound chains (or the internal defaults) accordingly.",
+   note=TRUST + "internal405Handler/internal404Handler bodies (Allow header sorting, status) are not under contract.",
+   design="6/C06"),
+ "C07": dict(
+   text="Contract proof of the cache discipline: a cache hit returns exactly the stored view; a dynamic match stores, under the key METHOD+path it is looked up with, a copy of the matched route with the parameters of that match (cacheDynamicRoute, copyWithParams); the invariant cacheNN (every entry belongs to a (method,path) the dynamic tables match; key decomposition proved unique by a string lemma) makes 'a route is found' independent of the cache content, for any capacity; the container keeps all other entries' values (C14).",
+   note=TRUST + "The full equality 'cached result == uncached result for every history' composes these clauses with R-reg (frozen tables) by a meta-argument; route identity differs (the cache holds copies), as documented.",
+   design="6/C07"),
+ "C15": dict(
+   text="Contract proof of the name index: appendRoute stores a named route under its name and leaves every other name untouched, NamedTo does the same for the trimmed name, GetRoute returns the index entry (so the most recently registered route of a name wins).",
+   note=TRUST + "The build-then-route round trip (BuildURL/ToURL/BuildRequestURL.Build against the run-time regexp) is not decided deductively.",
+   design="6/C15"),
+ "C17": dict(
+   text="Contract proof of delegation: the handlers registered by StaticDir/StaticFS/StaticFiles/StaticFile are proved to do nothing but pass the request once to the file server bound at registration (StaticFiles after setting the path to the matched file parameter) or to serve the one configured file; no other file API is called (any would be an uncontracted external effect) and no file name is built from the request.",
+   note=TRUST + "Confinement to the root itself is enforced inside net/http (http.Dir, FileServer, ServeFile) and is assumed, as is the extension regexp of StaticFiles.",
+   design="6/C17"),
+ "C18": dict(
+   text="Contract proof of the source-selection table of binding.Auto (query for methods without body; otherwise urlencoded form, multipart, JSON, XML by the Content-Type markers, error and no decoder call for any other type, with a proved lemma placing the documented media types in the right rows), that every successful bind went through the validator when one is enabled, that decoder errors are returned unchanged and that no rux code panics.",
+   note=TRUST + "encoding/json, encoding/xml, formam and gookit/validate are assumed contracts: encode-then-bind equality and decoder robustness on malformed bytes are statements about them and are not decided.",
+   design="6/C18"),
+ "C19": dict(
+   text="Contract proof on top of the writer contracts: every pkg/render renderer sets its documented Content-Type only if none is present (never overrides), frames the body as documented (JSONP callback(...); XML header) and returns encoder errors; render.Auto serves the FIRST supported Accept type (loop invariant; the empty-case defect for application/xml is fixed); Context.Blob/Text/HTML/JSONBytes/Respond/ShouldRender/JSON/NoContent/HTTPError produce the given status (pending or sent), the documented Content-Type and record/return render failures instead of panicking.",
+   note=TRUST + "Encoders are assumed (they write through the given writer; unencodable values yield errors). 'The body decodes back to the value' is not decided.",
+   design="6/C19"),
+ "C20": dict(
+   text="Contract proof: the HTTPBasicAuth closure leaves the request un-aborted iff credentials are well-formed and (no accounts or password matches), otherwise aborts with 401+challenge or 403; the method-override closure calls the downstream handler exactly once, rewriting the method only for POST and only to PUT/PATCH/DELETE and recording the original; WrapHTTPHandlers composes so that the first listed wrapper is outermost (loop invariant over an uninterpreted apply); WrapHTTPHandler delegates exactly once and leaves the chain state alone.",
+   note=TRUST + "net/http request/handler functions are assumed contracts (BasicAuth, FormValue, Header.Get, WithContext).",
+   design="6/C20"),
+
  "C04": dict(
    text="Contract proof of the chain protocol: Context.Next is proved, against a rely/guarantee contract on HandlerFunc values, to start handlers in chain order, each at most once and none skipped, whatever each handler does with Next() (ghost counter started(c), exact int8 cursor arithmetic, loop invariant, no bound on the chain other than the documented 63); combineHandlers, Route.Use and Router.Use are proved to build the lists in the documented order.",
    note=TRUST + "Relies on R-handler/R-cursor (user handlers act only through the Context API and do not drive the int8 cursor to 127). The composition 'every handler is a composition of API calls' is a meta-argument.",
@@ -89,7 +126,7 @@ def main():
     json.dump(m, open(os.path.join(HERE, "MANIFEST.json"), "w"), indent=1)
     print("claimed:", sorted(CLAIMS), "n/a:", [x["property_id"] for x in na])
 
-NA = {}
+NA = {"C16": "Resource is reflection-driven (reflect.Value.MethodByName / Interface type assertions inside a map-range loop inside a Group callback); the contract machinery for call-site clauses keyed by the loop key is not built, so no deductive check is claimed for C16 (see DESIGN.md section 8)"}
 SOURCE_COMMITS = ["78dc240"]  # regenerated below from git log
 import subprocess
 SOURCE_COMMITS = subprocess.run(["git","-C","/repo","log","--format=%h","--grep=^verif:"],capture_output=True,text=True).stdout.split()
